@@ -173,8 +173,9 @@ def inject(tu_rel, injections, scratch):
             if not fs < ts:
                 raise Undecided('extraction break: `to` line precedes `from` line in %s' % inj['function'])
             piece = src[fs:ts]
-            if piece.count('{') != piece.count('}'):
-                raise Undecided('extraction break: unbalanced braces in the lines extracted from %s (%r .. %r)' % (inj['function'], inj['from'], inj['to']))
+            extra_open = piece.count('{') - piece.count('}')
+            if extra_open != int(inj.get('open_braces', 0)):
+                raise Undecided('extraction break: the lines extracted from %s (%r .. %r) leave %d brace(s) open, expected %s' % (inj['function'], inj['from'], inj['to'], extra_open, inj.get('open_braces', 0)))
             # wrap=switch (default): one-case switch for `case X:` blocks; wrap=block: plain braces for a run of statements.
             # ret= gives the return type of the generated function (the copied lines may contain `return expr;`), tail= a
             # statement executed when the copied lines fall through.
@@ -183,7 +184,7 @@ def inject(tu_rel, injections, scratch):
                 head = MARK_O + '\n%s %s(void) {\n%s\n{\n' % (ret_t, inj['name'], inj['text'])
             else:
                 head = MARK_O + '\n%s %s(void) {\n%s\nswitch (instruction) {\n' % (ret_t, inj['name'], inj['text'])
-            tail = '}\n%s\n}\n' % inj.get('tail', '') + MARK_C + '\n'
+            tail = '}' * max(extra_open, 0) + '}\n%s\n}\n' % inj.get('tail', '') + MARK_C + '\n'   # open_braces=N: the slice ends inside N blocks it opened; they are closed here
             first_line = src.count('\n', 0, fs) + 1
             # ghost statements injected into the copied lines (other /*@inject blocks of this harness) are copied with them
             inner = sorted([x for x in inserts if fs <= x[0] < ts and len(x) < 3], key=lambda x: x[0])
